@@ -47,7 +47,8 @@ STUBBED = ["socket/select/time/pinger (simkit)", "switch peers (scripted)",
 EXPECT_PROBES = ["announced", "lost_announced", "lost_half_open",
                  "lost_before_features", "early_port_status",
                  "same_dpid_overlap", "barrier_unsupported", "reset", "close",
-                 "probe_send_hit", "probe_send_miss"]
+                 "probe_send_hit", "probe_send_miss",
+                 "unrelated_bad_type_error_mid_handshake"]
 
 DPIDS = [0x11, 0x2200000022]
 
@@ -81,6 +82,11 @@ def gen_plan(seed, tier):
       k = r.wpick([(5, "port_status"), (2, "echo"), (2, "packet_in"),
                    (1, "error")])
       st = {"op": k}
+      if k == "error":
+        # an error that answers some other request (or nothing): any type /
+        # code, in particular the very one a barrier-less switch would send
+        st["et"], st["code"] = r.pick([[2, 0], [1, 1], [1, 1], [1, 6], [3, 2],
+                                       [4, 0], [1, 2]])
       if k == "port_status":
         st["reason"] = r.pick([0, 1, 2])
         st["port"] = r.randint(1, 4)
@@ -268,8 +274,14 @@ def _drive(sim, plan, known, hit):
       data = F.eth(F.mac(1), F.mac(2), 0x88b5, b"x" * 20)
       peer.send(W.enc_packet_in(nx(), W.NO_BUFFER, len(data), 1, 0, data))
     elif op == "error":
-      peer.send(W.enc_error(nx(), W.ET_BAD_ACTION, 0,
-                            W.enc_echo_request(1, b"")))
+      x = nx()
+      while x == m.barrier_xid:
+        x = nx()
+      peer.send(W.enc_error(x, st.get("et", W.ET_BAD_ACTION),
+                            st.get("code", 0), W.enc_echo_request(x, b"")))
+      if (st.get("et"), st.get("code")) == (W.ET_BAD_REQUEST, W.BRC_BAD_TYPE) \
+          and m.features and not m.announced:
+        sim.probes["unrelated_bad_type_error_mid_handshake"] += 1
     elif op in ("close", "reset"):
       settle_all() if st.get("flush") else None
       if op == "close":
